@@ -21,8 +21,10 @@ def run(ctx):
     # the whole family once more on a gateway whose string coercion was reconfigured (nothing about channels, closes, errors or
     # remote_exec may depend on the coercion switches)
     opts.append({{"post_yields": True, "reconfigure": (False, True)}})
+    # the real SocketIO over the scripted socket (partial sends, chunked receives)
+    opts.append({{"post_yields": True, "transport": "socket", "chunking": "random"}})
     if not ctx.quick:
-        opts.append({{"post_yields": True, "transport": "socket", "chunking": "random"}})
+        opts.append({{"post_yields": False, "transport": "socket"}})
         opts.append({{"post_yields": False, "reconfigure": (True, True)}})
     jobs = gc.jobs_for(progs, 24 if ctx.quick else 120, 10 if ctx.quick else 40, ctx.seed, opts)
     # preemption-bounded systematic search (every schedule with <= 1 preemption, yields before and after each operation)
@@ -54,7 +56,7 @@ D = {
   ntext="non-trivial = at least 3 items delivered", known="None"),
 "c03": dict(post='ctx.coverage["chanlife_replay"] = life', extra='life = gc.chanlife_part(ctx, ["C03."], 3 if ctx.quick else 5)',title="C03 -- close is ordered after data and observed consistently by both sides",
   cfgs='["GW_data", "GW_lclose"] if ctx.quick else ["GW_data", "GW_err", "GW_lclose", "GW_data_big", "GW_all_big"]', mutants='["GW_close_unfixed"]',
-  fam="c03_programs(rng, 10 if ctx.quick else 80)", own='["C03."]',
+  fam="c03_programs(rng, 10 if ctx.quick else 80)", own='["C03.", "C10.endmarker-before-last-item"]',
   line='["close", "_local_close", "_no_longer_opened", "receive", "waitclose", "send", "isclosed", "__del__"]',
   nontriv='lambda evs: any(e["ev"] == "ret" and e["op"] == "receive" and e["res"] == "EOF" for e in evs) and any(e["ev"] == "ret" and e["op"] in ("send", "isclosed") for e in evs)',
   rule="generated send/close histories (explicit close, close with error, end of remote_exec, dropping the last reference, concurrent close on both sides) with 1-3 blocked receivers and waitclose callers that probe isclosed/send/waitclose/close/receive after having observed the close",
@@ -70,7 +72,7 @@ D = {
 "c10": dict(post='ctx.coverage["chanlife_replay"] = life', extra='life = gc.chanlife_part(ctx, ["C10."], 3 if ctx.quick else 5)',title="C10 -- callback receivers see every item once, in order, then one endmarker",
   cfgs='["GW_cb", "GW_cb_recv"] if ctx.quick else ["GW_cb", "GW_cb_recv", "GW_all_big"]', mutants='[]',
   fam="c10_programs(rng, 10 if ctx.quick else 80)", own='["C10."]',
-  line='["setcallback", "_local_receive", "_local_close", "_no_longer_opened", "_finished_receiving", "receive"]',
+  line='["setcallback", "_local_receive", "_local_close", "_no_longer_opened", "_finished_receiving", "receive", "reconfigure"]',
   nontriv='lambda evs: sum(1 for e in evs if e["ev"] == "cb") >= 2',
   rule="setcallback placed before / between / after in-flight items and the peer's close (the schedule decides where relative to the receiver thread), endings by close, error, end of body and gateway exit, with and without endmarker, callback channels whose object was dropped, two callback channels at once",
   ntext="non-trivial = the callback was invoked at least twice",
